@@ -210,7 +210,7 @@ class Chain:
 
     Node ids are chosen so that lexicographic and numeric order differ (s10 < s9 lexicographically)."""
 
-    def __init__(self, blocks, chrom="chr1", id_base=0, hap="hA#1#c", decl="fwd", so_base=0, ends=("tip", "tip"), scaffold_len=2):
+    def __init__(self, blocks, chrom="chr1", id_base=0, hap="hA#1#c", decl="fwd", so_base=0, ends=("tip", "tip"), scaffold_len=2, id_style="s", long_hap=False):
         self.blocks = list(blocks)
         self.chrom = chrom
         self.decl = decl
@@ -222,6 +222,8 @@ class Chain:
         self._hso = 100
         self._nl = 0
         self.hap = hap
+        self.id_style = id_style
+        self.long_hap = long_hap
         self.scaffold_len = scaffold_len
         # left end: the end node of a chain is never an articulation point; it is an inner node of the end block
         tip = self._ref(2)
@@ -255,6 +257,10 @@ class Chain:
     def _id(self):
         self._n += 1
         # s9, s10, s11 ...: lexicographic order differs from numeric order
+        if self.id_style == "numeric":
+            return str(self._n - 1)  # vg-style ids 0, 1, 2, ... (they collide with small integers used as internal names)
+        if self.id_style == "odd":
+            return f"s{self._n + 7}" + (".1", "-alt", "#b", "")[self._n % 4]
         return f"s{self._n + 7}"
 
     def _ref(self, ln):
@@ -265,6 +271,8 @@ class Chain:
         return i
 
     def _hapseg(self, ln, rank=1):
+        if self.long_hap:
+            ln = ln * 60  # a haplotype allele carrying far more bases than the whole reference of the chain
         i = self._id()
         # one contig name per rank: a contig has exactly one rank in a valid rGFA
         name = self.hap if rank == 1 else f"{self.hap}.r{rank}"
